@@ -315,6 +315,7 @@ def _check(ctx):
         ctx.case(("srv", data), nontrivial=bool(out))
     if excs:
         ctx.violation("C05/loop-exception-handler-called", {"n": len(excs), "first": repr(excs[0])[:300]}, f"{len(excs)} exceptions reached the event loop")
+    check_work(ctx)
     # the malformed request arrives behind valid keep-alive requests: in the same read (their handlers have not run yet)
     # or in a later read while a slow handler is still running — the 4xx must still be sent, after their responses
     oks = [b"GET /ok HTTP/1.1\r\nHost: h\r\n\r\n", b"POST /ok HTTP/1.1\r\nHost: h\r\nContent-Length: 3\r\n\r\nabc",
@@ -340,6 +341,89 @@ def _check(ctx):
         ctx.violation("C05/loop-exception-handler-called", {"n": len(excs), "first": repr(excs[0])[:300]}, f"{len(excs)} exceptions reached the event loop (errors behind handlers)")
 
 
+# ------------------------------------------------------------------ work: "never ... super-linear work"
+WORK_BUDGET_S = 0.040      # CPU seconds for ONE feed_data call on a message of <= 9 KB within the default limits
+#   (the unchanged parser needs 0.05-0.6 ms for every family below; a quadratic scan of one 8 KB field needs 100+ ms)
+
+
+def work_families():
+    """(name, builder n -> stream) — one syntactic position filled with n repetitions of a short unit; default limits"""
+    fams = []
+    units = [b" ", b"\t", b" \t", b",", b", ", b" ,", b"a,", b";", b"; ", b"=", b"\"", b"a", b"%", b"/", b"?&", b"\\", b"(", b"a b", b"\x80", b"0"]
+    names = [b"Connection", b"Transfer-Encoding", b"Content-Length", b"Host", b"Upgrade", b"Content-Encoding", b"Content-Type", b"Cookie",
+             b"Expect", b"X-Any", b"Sec-WebSocket-Key1", b"Keep-Alive"]
+    pre = {b"Connection": b"keep-alive", b"Transfer-Encoding": b"gzip", b"Content-Length": b"1", b"Upgrade": b"websocket", b"Expect": b"100-continue"}
+    for hn in names:
+        for u in units:
+            def mk(n, hn=hn, u=u):
+                fill = (u * (n // len(u) + 1))[:n]
+                v = pre.get(hn, b"v") + fill + b"x"
+                hs = b"Host: h\r\n" if hn != b"Host" else b""
+                return b"POST /w HTTP/1.1\r\n" + hs + hn + b": " + v + b"\r\n\r\n"
+            fams.append((f"field:{hn.decode()}:{u!r}", False, mk))
+    for u in units:
+        fams.append((f"target:{u!r}", False, lambda n, u=u: b"GET /" + (u * (n // len(u) + 1))[:n].replace(b" ", b"+").replace(b"\t", b"+") + b" HTTP/1.1\r\nHost: h\r\n\r\n"))
+        fams.append((f"chunk-ext:{u!r}", False, lambda n, u=u: b"POST /w HTTP/1.1\r\nHost: h\r\nTransfer-Encoding: chunked\r\n\r\n3;" + (u * (n // len(u) + 1))[:n] + b"\r\nabc\r\n0\r\n\r\n"))
+        fams.append((f"trailer:{u!r}", False, lambda n, u=u: b"POST /w HTTP/1.1\r\nHost: h\r\nTransfer-Encoding: chunked\r\n\r\n3\r\nabc\r\n0\r\nX-T: " + (u * (n // len(u) + 1))[:n] + b"\r\n\r\n"))
+        fams.append((f"reason:{u!r}", True, lambda n, u=u: b"HTTP/1.1 200 " + (u * (n // len(u) + 1))[:n] + b"\r\nContent-Length: 0\r\n\r\n"))
+        fams.append((f"resp-field:{u!r}", True, lambda n, u=u: b"HTTP/1.1 200 OK\r\nConnection: close" + (u * (n // len(u) + 1))[:n] + b"x\r\nContent-Length: 0\r\n\r\n"))
+    fams.append(("many-fields", False, lambda n: b"GET / HTTP/1.1\r\nHost: h\r\n" + b"".join(b"X-%d: v\r\n" % i for i in range(min(120, n // 8))) + b"\r\n"))
+    fams.append(("many-chunks", False, lambda n: b"POST /w HTTP/1.1\r\nHost: h\r\nTransfer-Encoding: chunked\r\n\r\n" + b"1\r\na\r\n" * (n // 6) + b"0\r\n\r\n"))
+    return fams
+
+
+def cpu_of_feed(cfg, data):
+    """least CPU time (of 3 fresh parsers, collector off) of one feed_data call on the whole stream"""
+    import gc, time
+    kw = {"SEP": b"\n" if cfg.lax else b"\r\n"} if cfg.response else {}
+    best = None
+    was = gc.isenabled()
+    gc.disable()
+    try:
+        for _ in range(3):
+            p = H.make_parser(cfg)
+            t0 = time.process_time()
+            try:
+                H._watch(True)
+                try:
+                    p.feed_data(data, **kw)
+                finally:
+                    H._watch(False)
+            except H.ParserHang:
+                return 10.0
+            except BaseException as e:  # noqa
+                if type(e).__name__ == "_Runaway":
+                    raise
+            dt = time.process_time() - t0
+            best = dt if best is None else min(best, dt)
+            if best < WORK_BUDGET_S / 4:
+                break
+    finally:
+        if was:
+            gc.enable()
+    return best
+
+
+def check_work(ctx):
+    fams = work_families()
+    rng = ctx.rng
+    pick = fams if not ctx.quick else rng.sample(fams, 220) + [f for f in fams if f[0].startswith(("field:Connection", "field:Transfer-Encoding"))]
+    for name, response, mk in pick:
+        cfg = H.Cfg(response=response, lax=response, read_until_eof=False)
+        n = 8000
+        data = mk(n)
+        t = cpu_of_feed(cfg, data)
+        ctx.case(("work", name), nontrivial=True)
+        ctx.hit("work:" + name.split(":")[0])
+        if t > WORK_BUDGET_S:
+            t4 = cpu_of_feed(cfg, mk(n // 4))
+            ctx.violation(f"C10/work/super-linear/{name.split(':')[0]}" + (f"/{name.split(':')[1]}" if name.startswith("field:") else ""),
+                          {"cfg": cfg.spec(), "stream": hx(data), "cuts": [len(data)], "work": name},
+                          f"one feed_data call on a {len(data)}-byte message ({name}, default limits) used {t * 1000:.0f} ms of CPU "
+                          f"(budget {WORK_BUDGET_S * 1000:.0f} ms; a quarter of the filler takes {t4 * 1000:.1f} ms: growth x{t / max(t4, 1e-6):.1f} for x4 input)")
+    ctx.extra["work_families"] = len(pick)
+
+
 def judge_behind(ctx, case, o, out, closed, escaped):
     from . import c01
     if escaped:
@@ -362,6 +446,13 @@ def _replay(ctx, case):
     segs, pos = [], 0
     for n in case["cuts"]:
         segs.append(data[pos:pos + n]); pos += n
+    if case.get("work"):
+        t = cpu_of_feed(cfg, data)
+        if t > WORK_BUDGET_S:
+            name = case["work"]
+            ctx.violation(f"C10/work/super-linear/{name.split(':')[0]}" + (f"/{name.split(':')[1]}" if name.startswith("field:") else ""), case,
+                          f"one feed_data call used {t * 1000:.0f} ms of CPU (budget {WORK_BUDGET_S * 1000:.0f} ms)")
+        return
     if case.get("behind"):
         from . import c01
         segs_, pos_ = [], 0
